@@ -64,6 +64,17 @@ def validate_occs_aminusb(mo, _attribtue, value):
         raise ValueError("Attribute occs_aminusb can only be set for restricted wavefunctions.")
 
 
+def validate_change(mo, attribute, value):
+    """Validate a new kind, norba or norbb assigned to an existing MolecularOrbitals object.
+
+    All other attributes are validated against these three, so when one of them
+    changes, the validators of all attributes are repeated on a modified copy.
+    (This does nothing in the constructor, where every attribute is validated anyway.)
+    """
+    if getattr(mo, attribute.name) != value:
+        attrs.evolve(mo, **{attribute.name: value})
+
+
 @attrs.define
 class MolecularOrbitals:
     """Class of Orthonormal Molecular Orbitals.
@@ -93,17 +104,20 @@ class MolecularOrbitals:
     """
 
     kind: str = attrs.field(
-        validator=attrs.validators.in_(["restricted", "unrestricted", "generalized"])
+        validator=[
+            attrs.validators.in_(["restricted", "unrestricted", "generalized"]),
+            validate_change,
+        ]
     )
     """Type of molecular orbitals, which can be 'restricted', 'unrestricted', or 'generalized'."""
 
-    norba: int = attrs.field(validator=validate_norbab)
+    norba: int = attrs.field(validator=[validate_norbab, validate_change])
     """
     Number of (occupied and virtual) alpha molecular orbitals.
     Set to `None` in case oftype=='generalized'.
     """
 
-    norbb: int = attrs.field(validator=validate_norbab)
+    norbb: int = attrs.field(validator=[validate_norbab, validate_change])
     """
     Number of (occupied and virtual) beta molecular orbitals.
     Set to `None` in case of type=='generalized'.
